@@ -203,9 +203,10 @@ def run(tier, seed, t0):
                 lat.add((m, M, z))
                 lat.add((M, m, z))
     # counts beyond 256 residues of a class, one composition per search regime (small-integer identity, int8/uint8 counters)
-    big = [(300, 0, 2), (0, 257, 17), (258, 0, 18), (0, 300, 40), (260, 30, 0), (30, 257, 0), (300, 10, 2), (5, 280, 17), (270, 8, 20), (3, 3, 300)]
+    big = [(300, 0, 2), (0, 257, 17), (258, 0, 18), (0, 300, 40), (260, 30, 0), (30, 257, 0), (300, 10, 2), (5, 280, 17), (270, 8, 20), (3, 3, 300),
+           (80, 600, 0), (140, 0, 600)]       # slides of 600 positions (size guards / subsampled searches)
     if tier == "thorough":
-        big += [(513, 0, 3), (0, 1025, 5), (520, 520, 0), (600, 20, 4), (20, 600, 30), (300, 300, 3)]
+        big += [(513, 0, 3), (0, 1025, 5), (520, 520, 0), (600, 20, 4), (20, 600, 30), (300, 300, 3), (0, 700, 90), (650, 75, 0), (1000, 130, 0)]
     for c in big:
         lat.add(c)
     for c in sorted(extra):
@@ -223,7 +224,7 @@ def run(tier, seed, t0):
              "interleaved and two rotations (blocks+reversed only above total %d) in a rotating spelling that mixes K/R, D/E and "
              "all 16 neutrals; plus every composition with n0>=18 up to total %d (thorough: also minority charge <=6 up to total 80); plus the "
              "regime-intersection lattices: one charge type with n0 in 18,19,22,27,36 and 1..%d charges, no neutrals with a minority of 1..8 "
-             "against a majority up to %d, and n0 in {1,17} with a minority of 1,2,5 against a majority of 25..40 (thorough: wider), and ten compositions with more than 256 residues of one class, one per search regime; plus "
+             "against a majority up to %d, and n0 in {1,17} with a minority of 1,2,5 against a majority of 25..40 (thorough: wider), and ten compositions with more than 256 residues of one class, one per search regime, and two with slides of 600 positions; plus "
              "every composition of total <=%d with ALL its arrangements. Per presentation: get_deltaMax() "
              "must equal the exact-rational maximum over the documented family, get_deltaMax(True) must return that value and a "
              "rearrangement of the input whose get_delta() equals it; values must agree across presentations. non-trivial = "
